@@ -16,9 +16,12 @@ Bounded exhaustive enumeration (depth-1 input space), every point executed on re
              seam `_table_formats.lookup_key` + `cell._duration_format_id`; every formatted duration cell
              of tests/data/duration_112.numbers as a cross-check on formats written by Numbers.
 
-Every date format is read in three phases: `live` (cell written with Table.write, right after
-set_cell_formatting), `reopened` (after Document.save + Document(path)) and `relive` (a loaded cell that
-gets another case's format, read without saving). Oracle: mc/ref_datefmt.py (integer arithmetic from
+Every date format is read in these phases: `live` (cell written with Table.write, right after
+set_cell_formatting), `reopened` (after Document.save + Document(path)), `relive` / `relive-new` (a loaded
+cell that gets another case's format, read without saving) and `resaved` (the saved file is opened again,
+the cells of ONE route get another case's format - the only edit of that table between load and save, no
+write and no other setter - and the document is saved and reopened once more: a format set on a loaded cell
+must also be what the next reader of the file sees). Oracle: mc/ref_datefmt.py (integer arithmetic from
 docs/api/datetime.rst; no strftime).
 """
 from __future__ import annotations
@@ -249,8 +252,9 @@ def apply_date_format(doc, table, r, c, route, parts, customs, reuse=None):
         table.set_cell_formatting(r, c, "custom", format=customs[fmt])
 
 
-def judge_date(case, phase, cell, out, stats):
-    """Compare one displayed date with the reference; append (ident, detail, replay-case) on failure."""
+def judge_date(case, phase, cell, out, stats, prev=None):
+    """Compare one displayed date with the reference; append (ident, detail, replay-case) on failure.
+    prev = the parts of the format the cell carried before this case's format was set (resaved phase)."""
     _, route, parts, inst, template = case
     single = template == "single"
     cls = parts[0][1] if single else template
@@ -282,6 +286,11 @@ def judge_date(case, phase, cell, out, stats):
                  "pattern": "raised:" + got[1].split(":")[0]}
     elif phase == "live" and got[1] == str(value):
         ident = {"mechanism": "live-written-cell", "kind": "date", "pattern": "format-ignored"}
+    elif phase == "resaved" and prev is not None and ref.matches(ref.segments(prev, value), got[1]):
+        ident = {"mechanism": "format-set-on-loaded-cell", "route": route, "phase": phase, "pattern": "previous-format-shown"}
+        detail += f" (= the format {ref.format_text(prev)!r} the cell had when the file was loaded: the new format was not saved)"
+    elif phase == "resaved" and got[1] == str(value):
+        ident = {"mechanism": "format-set-on-loaded-cell", "route": route, "phase": phase, "pattern": "format-ignored"}
     else:
         spat = scanner_pattern(template, parts, value, got[1])
         who = ref.blame(parts, segs, got[1]) if spat == "structure" else None
@@ -390,6 +399,40 @@ def eval_date_batch(cases, stats):
                             f"set_cell_formatting({ref.format_text(new[2])!r}) on a loaded cell raised {res[1]}", new))
                 continue
             judge_date(new, phase, table2.cell(r, c), out, stats)
+    # resaved: the saved file is loaded afresh once per route; the loaded cells of that route take the format
+    # of the next case of the same route (custom formats alternately by stored name / newly added) and NOTHING
+    # else touches the table before the document is saved and reopened a second time.
+    for route in ("dt", "cu"):
+        idx = [i for i, case in enumerate(cases) if applied[i] and case[1] == route]
+        if not idx:
+            continue
+        doc3 = Document(path)
+        table3 = doc3.sheets[0].tables[0]
+        customs3 = {}
+        news = {}
+        for k, i in enumerate(idx):
+            # the next case of this route with a DIFFERENT format, so that a lost edit shows; when there is none
+            # (e.g. --replay of one case) the cell's own format is extended instead
+            j = next((idx[(k + d) % len(idx)] for d in range(1, min(len(idx), 64)) if cases[idx[(k + d) % len(idx)]][2] != cases[i][2]), i)
+            parts = cases[j][2] if j != i else [*cases[i][2], L(" "), F("G")]
+            new = ["date", route, parts, cases[i][3], cases[j][4]]
+            if ref.uses_subsecond(parts) and not ref.subsecond_resolved(datetime(*new[3])):
+                continue
+            r, c = divmod(i, COLS)
+            res = _get(lambda: apply_date_format(doc3, table3, r, c, route, parts, customs3, reuse=stored if k % 2 == 0 else {}))  # noqa: B023
+            if res[0] == "exc":
+                out.append(({"mechanism": "validation", "class": new[4], "phase": "resaved", "pattern": "raised:" + res[1].split(":")[0]},
+                            f"set_cell_formatting({ref.format_text(parts)!r}) on a loaded cell raised {res[1]}", new))
+                continue
+            news[i] = new
+        path2 = os.path.join(Scratch.dir(), f"c14-{os.getpid()}-b.numbers")
+        doc3.save(path2)
+        table4 = Document(path2).sheets[0].tables[0]
+        os.unlink(path2)
+        for i, new in news.items():
+            r, c = divmod(i, COLS)
+            stats[f"resaved_{route}"] += 1
+            judge_date(new, "resaved", table4.cell(r, c), out, stats, prev=cases[i][2])
     os.unlink(path)
     return out
 
@@ -652,6 +695,8 @@ def main():
     run.floor("dates judged in all phases (live, reopened, relive > 100 000 each; relive-new > 10 000)",
               min(cnt["date_renderings_live"], cnt["date_renderings_reopened"], cnt["date_renderings_relive"]) > 100_000
               and cnt["date_renderings_relive-new"] > 10_000)
+    run.floor("formats set on loaded cells as the only edit judged after a further save+reopen: > 100 000 through the "
+              "datetime route and > 10 000 through the custom-date route", cnt["resaved_dt"] > 100_000 and cnt["resaved_cu"] > 10_000)
     run.floor("durations judged after reopen and on loaded cells (> 10 000 each)",
               min(cnt["duration_renderings_reopened"], cnt["duration_renderings_relive"]) > 10_000)
     run.floor(">= 400 formatted duration cells of duration_112.numbers judged", cnt["fixture_cells"] >= 400)
